@@ -392,6 +392,63 @@ theorem decode_by_trait_yaml_int (o : Options) (g : GenFull) (h : genFull o f t 
     · rw [if_neg h0]
       simp [hmine]
 
+/-- the native block finds the row: if the trait type's own decoder reads the document as `v`,
+the trait's row constant is `T(v)`, and every other self-unmarshalling trait's reading of the
+document is no constant of another value, the block returns the row's value -/
+private theorem nativeTry_row (o : Options) (g : GenFull) (h : genFull o f t = .ok g) (ha : Accepted f t.name k)
+    (td : TraitDesc) (htd : td ∈ g.traits) (hp : td.parsable = true) (inner : String) (hfam : td.fam = .self inner)
+    (r : TraitRow) (hr : r ∈ td.rows) (v : Int) (hv : r.dyn.v = .int v)
+    (dec : String → Option Int) (hdec : dec inner = some v)
+    (hothers : ∀ td' ∈ g.traits, td'.parsable = true → ∀ inner' v', td'.fam = .self inner' → dec inner' = some v' →
+      g.base.parse ⟨td'.ty, .int v'⟩ = none ∨ g.base.parse ⟨td'.ty, .int v'⟩ = some r.owner.val) :
+    g.nativeTry dec = some r.owner.val := by
+  have hrow := parse_row o g h ha td htd hp r hr
+  have hty := (row_facts h ha td htd r hr).2.1
+  have hdyn : r.dyn = ⟨td.ty, .int v⟩ := by
+    cases hrd : r.dyn with
+    | mk ty sc => rw [hrd] at hty hv; simp at hty hv; rw [hty, hv]
+  unfold GenFull.nativeTry
+  apply firstSome_eq
+  · intro x hx
+    obtain ⟨td', htd', rfl⟩ := List.mem_map.mp hx
+    have hm := List.mem_filter.mp htd'
+    cases hf : td'.fam with
+    | self inner' =>
+      simp only []
+      cases hd' : dec inner' with
+      | none => exact Or.inl rfl
+      | some v' => exact hothers td' hm.1 (by simpa using hm.2) inner' v' hf hd'
+    | ustr => exact Or.inl rfl
+    | nstr => exact Or.inl rfl
+    | sint b => exact Or.inl rfl
+    | uint b => exact Or.inl rfl
+    | none => exact Or.inl rfl
+  · refine List.mem_map.mpr ⟨td, List.mem_filter.mpr ⟨htd, by simpa using hp⟩, ?_⟩
+    rw [hfam]
+    simp only [hdec]
+    rw [← hdyn, hrow]
+
+/-- `decode_by_trait`, self-unmarshalling trait types (another generated enum): a JSON / YAML
+document that the trait type's own decoder reads as the constant `T(v)` of a row of a parsable
+trait — for an enum: the NAME of `v`, by `C05.roundtrip` on the inner enum — and that the string /
+integer branches of the outer decoder reject, decodes to the row's value through the native
+block, in both decoders. -/
+theorem decode_by_trait_self (o : Options) (g : GenFull) (h : genFull o f t = .ok g) (ha : Accepted f t.name k)
+    (td : TraitDesc) (htd : td ∈ g.traits) (hp : td.parsable = true) (inner : String) (hfam : td.fam = .self inner)
+    (r : TraitRow) (hr : r ∈ td.rows) (v : Int) (hv : r.dyn.v = .int v)
+    (envJ : String → JDoc → Option Int) (envY : String → String → Option Int) (doc : JDoc) (text : String)
+    (hdj : envJ inner doc = some v) (hdy : envY inner text = some v)
+    (hj : g.unmarshalJSON {} doc = none) (hy : g.unmarshalYAML {} text = none)
+    (hoj : ∀ td' ∈ g.traits, td'.parsable = true → ∀ inner' v', td'.fam = .self inner' → envJ inner' doc = some v' →
+      g.base.parse ⟨td'.ty, .int v'⟩ = none ∨ g.base.parse ⟨td'.ty, .int v'⟩ = some r.owner.val)
+    (hoy : ∀ td' ∈ g.traits, td'.parsable = true → ∀ inner' v', td'.fam = .self inner' → envY inner' text = some v' →
+      g.base.parse ⟨td'.ty, .int v'⟩ = none ∨ g.base.parse ⟨td'.ty, .int v'⟩ = some r.owner.val) :
+    g.unmarshalJSONFull {} envJ doc = some r.owner.val ∧ g.unmarshalYAMLFull {} envY text = some r.owner.val := by
+  unfold GenFull.unmarshalJSONFull GenFull.unmarshalYAMLFull
+  rw [hj, hy]
+  exact ⟨nativeTry_row o g h ha td htd hp inner hfam r hr v hv _ hdj hoj,
+         nativeTry_row o g h ha td htd hp inner hfam r hr v hv _ hdy hoy⟩
+
 /-! ## the pinned algorithms -/
 
 private def errOf {α : Type} : Except GenFailure α → Option GenFailure
@@ -454,9 +511,10 @@ theorem legacy_rune_family_violates :
    `decode_by_trait_string` (untyped and named strings; JSON, text, YAML), `decode_by_trait_json_int`
    and `decode_by_trait_yaml_int` (signed / unsigned integers of 1-64 bits, untyped rune included
    since fix-C12-rune-trait), each under `Distinct` (the quantifier's "pairwise distinct values",
-   stated on the generated switch). The bool family has no template branch and falsifies the
-   statement on the code: known finding C12:decode:bool-trait. Not modelled: float and
-   self-unmarshalling trait types. -/
+   stated on the generated switch), and `decode_by_trait_self` for trait types that unmarshal
+   themselves (another generated enum; JSON and YAML native block). The bool family has no template
+   branch and falsifies the statement on the code: known finding C12:decode:bool-trait. Not
+   modelled: float trait types. -/
 
 /-! ## non-vacuity -/
 
@@ -481,5 +539,51 @@ example : Accepted C05.witness "E" ⟨64, true⟩ ∧ FirstLineDeclares C05.witn
 example : (genFull { parsable := ["Num"] } C05.witness C05.witnessType).toOption.map (fun g =>
     (g.traits.map (fun td => (td.name, td.get 1, td.get 5)), g.base.parse ⟨"int", .int 10⟩, g.base.parse ⟨"int64", .int 10⟩))
     = some ([("Num", ⟨"int", .int 10⟩, ⟨"int", .int 0⟩)], some 1, none) := by decide
+
+/-- `validateParsableTraits` compares constant TEXTS across all parsable traits, whatever their
+types: an untyped int trait `7` on one member and a float trait written as the bare literal `7` on
+another (both would be the constant `7` of type int in the `Parse` switch), or the first line's
+`int16(7)` (compared by value) next to an untyped `7`, make the generator refuse the definition;
+with distinct texts it accepts. -/
+theorem text_collision_rejected :
+    errOf (genFull { parsable := ["Num", "Weight"] }
+      ⟨[{ name := "E", kind := ⟨64, true⟩, cols := [⟨"Num", "int", .sint 64⟩, ⟨"Weight", "float", .none⟩] }],
+       [{ name := "M0", ty := "E", val := 0, deprecated := false, tvals := [.int 0, .other "0.5"] },
+        { name := "M1", ty := "E", val := 1, deprecated := false, tvals := [.int 7, .other "1.5"] },
+        { name := "M2", ty := "E", val := 2, deprecated := false, tvals := [.int 57, .other "7"] }]⟩
+      { name := "E", kind := ⟨64, true⟩, cols := [⟨"Num", "int", .sint 64⟩, ⟨"Weight", "float", .none⟩] }) = some .parsableNotUnique ∧
+    errOf (genFull { parsable := ["Mid", "Num"] }
+      ⟨[{ name := "E", kind := ⟨64, true⟩, cols := [⟨"Mid", "int16", .sint 16⟩, ⟨"Num", "int", .sint 64⟩] }],
+       [{ name := "M0", ty := "E", val := 0, deprecated := false, tvals := [.int 7, .int 0] },
+        { name := "M1", ty := "E", val := 1, deprecated := false, tvals := [.int 8, .int 7] }]⟩
+      { name := "E", kind := ⟨64, true⟩, cols := [⟨"Mid", "int16", .sint 16⟩, ⟨"Num", "int", .sint 64⟩] }) = some .parsableNotUnique ∧
+    errOf (genFull { parsable := ["Mid", "Num"] }
+      ⟨[{ name := "E", kind := ⟨64, true⟩, cols := [⟨"Mid", "int16", .sint 16⟩, ⟨"Num", "int", .sint 64⟩] }],
+       [{ name := "M0", ty := "E", val := 0, deprecated := false, tvals := [.int 7, .int 0] },
+        { name := "M1", ty := "E", val := 1, deprecated := false, tvals := [.int 8, .int 9] }]⟩
+      { name := "E", kind := ⟨64, true⟩, cols := [⟨"Mid", "int16", .sint 16⟩, ⟨"Num", "int", .sint 64⟩] }) = none := by decide
+
+/-- a file with an inner enum `Colour` (Red, Green) and an outer enum whose parsable trait `Skin`
+has type `Colour`: JSON "Green" / YAML Green decode through the native block to the owner of
+Colour(1); the bare numeral 1 and a near-miss name are rejected; the int trait still decodes 20. -/
+def selfFile : FileDef :=
+  ⟨[{ name := "Fruit", kind := ⟨64, true⟩, cols := [⟨"Sku", "int", .sint 64⟩, ⟨"Skin", "Colour", .self "Colour"⟩] },
+    { name := "Colour", kind := ⟨64, true⟩ }],
+   [{ name := "Apple", ty := "Fruit", val := 0, deprecated := false, tvals := [.int 10, .int 0] },
+    { name := "Lime", ty := "Fruit", val := 1, deprecated := false, tvals := [.int 20, .int 1] },
+    { name := "Red", ty := "Colour", val := 0, deprecated := false },
+    { name := "Green", ty := "Colour", val := 1, deprecated := false }]⟩
+
+example :
+    (genFull {} selfFile { name := "Colour", kind := ⟨64, true⟩ }).toOption.bind (fun gi =>
+      (genFull { parsable := ["Sku", "Skin"] } selfFile
+          { name := "Fruit", kind := ⟨64, true⟩, cols := [⟨"Sku", "int", .sint 64⟩, ⟨"Skin", "Colour", .self "Colour"⟩] }).toOption.map (fun g =>
+        let envJ : String → JDoc → Option Int := fun _ d => gi.unmarshalJSON {} d
+        let envY : String → String → Option Int := fun _ s => gi.unmarshalYAML {} s
+        [g.unmarshalJSONFull {} envJ (.str "Green"), g.unmarshalYAMLFull {} envY "Green",
+         g.unmarshalJSONFull {} envJ (.num 1), g.unmarshalYAMLFull {} envY "1",
+         g.unmarshalJSONFull {} envJ (.str "Greenx"), g.unmarshalJSONFull {} envJ (.num 20),
+         g.base.parse ⟨"Colour", .int 1⟩]))
+    = some [some 1, some 1, none, none, none, some 1, some 1] := by decide
 
 end Genum.C12
